@@ -78,8 +78,9 @@ Definition spec_filter (fo : fop * ffield) (l : list triple) : list triple + ler
    k < 0 skip the first n*k elements. *)
 Definition spec_page {A : Type} (lo : lopts) (l : list A) : list A :=
   let n := lo_max lo in let k := lo_offset lo in
-  if Z.gtb n 0 then firstn (Z.to_nat n) (skipn (Z.to_nat (n * k)) l)
-  else skipn (Z.to_nat (n * k)) l.
+  let skip := wrap64 (n * k) in        (* = n * k whenever |n * k| < 2^63; the int arithmetic of Go otherwise *)
+  if Z.gtb n 0 then firstn (Z.to_nat n) (skipn (Z.to_nat skip) l)
+  else skipn (Z.to_nat skip) l.
 
 Definition spec_select (q : query) (lo : lopts) (g : graph) : list triple + lerr :=
   let w := window lo (candidates q g) in
